@@ -85,9 +85,16 @@ def write_table(table, d):
                 f.write(",".join(repr(type(table["cols"][n]["data"][r])(31 + r)) for n in names) + "\n")
         path = os.path.join(d, "elsewhere", table["file"])
     names = list(table["cols"])
+    notes = table.get("notes")
     with open(path, "w") as f:
-        f.write(",".join(names) + "\n")
+        f.write(",".join(names) + (",note" if notes else "") + "\n")
         for r in range(table["nrows"]):
+            if notes:
+                # a text column at the end whose quoted fields may hold line breaks (one record, several physical lines)
+                if r in (table.get("blank_before") or ()):
+                    f.write("\n")
+                f.write(",".join(_cell_text(table, table["cols"][n]["data"][r], r) for n in names) + ',"%s"\n' % notes[r % len(notes)])
+                continue
             if r in (table.get("blank_before") or ()):
                 f.write("\n")          # an empty line between two records (skipped by the reader)
             f.write(",".join(_cell_text(table, table["cols"][n]["data"][r], r) for n in names) + "\n")
